@@ -105,10 +105,13 @@ class SqliteMap(BaseMap):
         c = self.db.cursor()
         for row in c.execute("SELECT key, value FROM properties;"):
             key, value = row[0], pickle.loads(row[1])
-            self.__dict__[key] = value
+            # Use setattr: use_latlon is a property that also selects the distance functions
+            setattr(self, key, value)
 
     def save_properties(self):
         c = self.db.cursor()
+        # Replace the stored properties (do not append a copy every time the file is opened)
+        c.execute("DELETE FROM properties")
         q = "INSERT INTO properties (key, value) VALUES (?, ?)"
         v = [('name', pickle.dumps(self.name)),
              ('use_latlon', pickle.dumps(self.use_latlon)),
